@@ -259,4 +259,141 @@ theorem scanMsgs_spec : ∀ (msgs : List MsgFacts) (hp : Bool) (d : List (Nat ×
         simp only [hpl, Bool.false_eq_true, ↓reduceIte, formCounts, List.filter_cons, hc, List.any_cons, hpl', Bool.and_false, Bool.false_or]
         exact ih hp d hd
 
+/-! ## the registry's declarations -/
+
+theorem strict_ok {c : List Char} {n : Nat} {e : Expr} {lj rj : List Char} (h : parsePluralFormsStrict c = .ok n e lj rj) :
+    parsePluralForms c = .ok n e [] [] ∧ lj = [] ∧ rj = [] := by
+  unfold parsePluralFormsStrict at h
+  split at h
+  · rename_i n' e' lj' rj' hp
+    split at h
+    · rename_i hempty
+      cases h
+      have h1 : lj' = [] := by simpa using hempty.1
+      have h2 : rj' = [] := by simpa using hempty.2
+      subst h1 h2
+      exact ⟨hp, rfl, rfl⟩
+    · cases h
+  · rename_i hne
+    exact absurd h (hne n e lj rj)
+
+/-- a declaration without junk parses strictly to the same thing -/
+theorem strict_of_lenient {c : List Char} {n : Nat} {e : Expr} (h : parsePluralForms c = .ok n e [] []) :
+    parsePluralFormsStrict c = .ok n e [] [] := by
+  simp [parsePluralFormsStrict, h]
+
+theorem localCorrect_spec (n : Nat) : ∀ (cs : List (List Char)) (r : List (Nat × Expr)), localCorrect n cs = .ok r →
+    (∀ x ∈ r, x.1 = n) ∧
+    (∀ c ∈ cs, ∀ e lj rj, parsePluralFormsStrict c = .ok n e lj rj → (n, e) ∈ r) := by
+  intro cs
+  induction cs with
+  | nil =>
+    intro r h
+    simp only [localCorrect, Except.ok.injEq] at h
+    subst h
+    simp
+  | cons c cs ih =>
+    intro r h
+    simp only [localCorrect] at h
+    split at h
+    · rename_i k ce lj' rj' hc
+      split at h
+      · cases h
+      · rename_i rest hrest
+        obtain ⟨ih1, ih2⟩ := ih rest hrest
+        simp only [Except.ok.injEq] at h
+        subst h
+        constructor
+        · intro x hx
+          split at hx
+          · rename_i hk
+            rcases List.mem_cons.mp hx with rfl | hx
+            · exact hk
+            · exact ih1 x hx
+          · exact ih1 x hx
+        · intro c' hc' e lj rj hs
+          rcases List.mem_cons.mp hc' with rfl | hc'
+          · rw [hc] at hs
+            cases hs
+            simp
+          · have := ih2 c' hc' e lj rj hs
+            split
+            · exact List.mem_cons_of_mem _ this
+            · exact this
+    · cases h
+    · cases h
+
+theorem pickLc_of_mem (ut : TagCall) (lcs : List (Nat × Expr)) (x : Nat × Expr) (hx : x ∈ lcs) :
+    (pickLc ut (some lcs)).1 = [] ∧ ((pickLc ut (some lcs)).2 = none ∨ (pickLc ut (some lcs)).2 = some x) := by
+  match lcs, hx with
+  | [y], hx =>
+    simp only [List.mem_singleton] at hx
+    subst hx
+    exact ⟨rfl, Or.inr rfl⟩
+  | _ :: _ :: _, _ => exact ⟨rfl, Or.inl rfl⟩
+
+theorem mem_pickLc (ut : TagCall) (lcs : Option (List (Nat × Expr))) (t : TagCall) (h : t ∈ (pickLc ut lcs).1) : t = ut := by
+  match lcs, h with
+  | some [], h => simpa [pickLc] using h
+  | none, h => simp [pickLc] at h
+  | some [_], h => simp [pickLc] at h
+  | some (_ :: _ :: _), h => simp [pickLc] at h
+
+/-! ## the report, part by part -/
+
+/-- **Syntax error**: the whole report. -/
+theorem report_syntax (inp : Input) (pf : List Char) (out : Output) (hv : headerValues inp = [pf]) (ht : inp.isTemplate = false)
+    (hpf : parsePluralForms pf = .syntaxError) (h : checkPlurals inp = .ok out) :
+    out = ⟨tags0Of inp ++ [syntaxTag (hasPlurals inp) pf (hintOf inp)], none⟩ := by
+  rw [checkPlurals_single inp pf hv ht, hpf] at h
+  simp only [Except.ok.injEq] at h
+  exact h.symm
+
+/-- **A header value that parses**: the report is — duplicate/inconsistent tags, junk tags, the nplurals comparison,
+    the registry's "no such nplurals", then what the window appended (`unusual` tags, at most one stop diagnostic),
+    then the gap claims. -/
+theorem report_ok (inp : Input) (pf : List Char) (out : Output) (hv : headerValues inp = [pf]) (ht : inp.isTemplate = false)
+    (n : Nat) (e : Expr) (lj rj : List Char) (hpf : parsePluralForms pf = .ok n e lj rj) (h : checkPlurals inp = .ok out) :
+    ∃ lcs st fin rs mid last,
+      lcsOf inp n = .ok lcs ∧
+      window n e (pickLc (unusualTag (hasPlurals inp) pf (hintOf inp)) lcs).2 (hasPlurals inp) (unusualTag (hasPlurals inp) pf (hintOf inp))
+        (List.range codomainLimit)
+        ⟨tags0Of inp ++ junkTags lj rj ++ nplTags n (expectedOf inp) ++ (pickLc (unusualTag (hasPlurals inp) pf (hintOf inp)) lcs).1, [], false⟩ = (st, fin) ∧
+      (fin = .completed ∨ fin = .stopped) ∧
+      gapRanges n e (completedOf st fin) = .ok rs ∧
+      out.tags = tags0Of inp ++ junkTags lj rj ++ nplTags n (expectedOf inp) ++ (pickLc (unusualTag (hasPlurals inp) pf (hintOf inp)) lcs).1
+                  ++ mid ++ last ++ gapTags (hasPlurals inp) rs ∧
+      out.preimage = (if rs.isEmpty then completedOf st fin else none) ∧
+      (∀ t ∈ mid, t = unusualTag (hasPlurals inp) pf (hintOf inp)) ∧
+      (fin = .completed → last = []) ∧ (fin = .stopped → ∃ t, last = [t] ∧ isStopTag (hasPlurals inp) t) ∧
+      (((pickLc (unusualTag (hasPlurals inp) pf (hintOf inp)) lcs).2 = none ∨
+        ∃ ln, (pickLc (unusualTag (hasPlurals inp) pf (hintOf inp)) lcs).2 = some (ln, e)) → mid = []) := by
+  rw [checkPlurals_single inp pf hv ht, hpf] at h
+  simp only [analyse_eq] at h
+  cases hl : lcsOf inp n with
+  | error ex => rw [hl] at h; cases h
+  | ok lcs =>
+    rw [hl] at h
+    simp only at h
+    generalize hw : window n e _ _ _ _ _ = w at h
+    obtain ⟨st, fin⟩ := w
+    cases hg : gapRanges n e (completedOf st fin) with
+    | error ex =>
+      cases fin <;> simp only [hg] at h <;> cases h
+    | ok rs =>
+      obtain ⟨mid, last, h1, h2, h3, h4, h5⟩ := window_shape _ _ _ _ _ _ _ _ _ hw
+      have hfin : fin = .completed ∨ fin = .stopped := by
+        cases fin with
+        | completed => exact Or.inl rfl
+        | stopped => exact Or.inr rfl
+        | crashed ex => exact absurd hw (window_nocrash _ _ _ _ _ _ _ _ _)
+      have hout : out = ⟨st.tags ++ gapTags (hasPlurals inp) rs, if rs.isEmpty then completedOf st fin else none⟩ := by
+        cases fin <;> simp only [hg, Except.ok.injEq] at h
+        · exact h.symm
+        · exact h.symm
+        · cases h
+      refine ⟨lcs, st, fin, rs, mid, last, rfl, hw, hfin, hg, ?_, ?_, h2, h3, h4, h5⟩
+      · rw [hout]; simp only [h1]
+      · rw [hout]
+
 end I18n.CheckPlurals
